@@ -8,5 +8,7 @@ BAT_ASSUME = ["scenarios are sampled; the theorems quantify over all of them",
 PROPS = {
     "C01": dict(engine="batcher", families=[("general", 300, 6000)],
                 cone=r"^(loop:batch|other:cbstart|other:cbret|sample:buf|missing|act:.*|unknown:.*)$",
-                assumptions=BAT_ASSUME),
+                assumptions=BAT_ASSUME,
+                level_text="Proof: conservation, uniqueness of instances across buffer/batches, own-watcher, at-most-once and (at settled states) at-least-once callback entry, no delivery after an error or after shutdown are theorems over every reachable state of the Batcher model (all label sequences: any workload, interleaving, capacity profile, slot limit, buffer size, both generations). The model is tied to the code by replaying recorded histories of the real implementation (synctest, tag verif) against the extracted model and by a model-free monitor on the same histories.",
+                level_note="Trusted: Coq kernel; extraction (ExtrOcamlBasic) and the OCaml reader; the harness and its fakes; that sampled scenarios reach the code paths that matter (label coverage is reported). Modelled, not verified: Go runtime (channels, mutexes, sync.Cond, tickers), zero-duration internal steps. No axioms (Print Assumptions: closed)."),
 }
